@@ -353,27 +353,44 @@ Inductive op :=
 | OParse               (* parse() until it yields None / raises; makeParser() after every ended message *)
 | OClose.              (* .close() *)
 
-Record hstate := { hs_p : pstate mstate; hs_closed : bool; hs_fresh : bool; hs_out : list (option msg) }.
-Definition hs_init : hstate := {| hs_p := init_state; hs_closed := false; hs_fresh := true; hs_out := [] |}.
+Record hstate := {
+  hs_p : pstate mstate;
+  hs_closed : bool;
+  hs_fresh : bool;      (* the parseMessage generator has not been stepped yet *)
+  hs_started : bool;    (* .started: the current message has begun (parseMessage saw a non-empty .msg) *)
+  hs_out : list (option msg)
+}.
+Definition hs_init : hstate :=
+  {| hs_p := init_state; hs_closed := false; hs_fresh := true; hs_started := false; hs_out := [] |}.
+
+(* after a parse: the parser waits for a message to start iff it is at the
+   start line with nothing buffered (after a 100 Continue the message has begun) *)
+Definition started_of (p : pstate mstate) : bool :=
+  match p with
+  | Live s b => negb (match m_phase s with PStart false => is_nil b | _ => false end)
+  | Dead _ => true
+  end.
 
 Definition do_op (k : kind) (h : hstate) (o : op) : hstate :=
   match o with
   | OData c =>
     {| hs_p := match hs_p h with Live s b => Live s (b ++ c) | Dead e => Dead e end;
-       hs_closed := hs_closed h; hs_fresh := hs_fresh h; hs_out := hs_out h |}
-  | OClose => {| hs_p := hs_p h; hs_closed := true; hs_fresh := hs_fresh h; hs_out := hs_out h |}
+       hs_closed := hs_closed h; hs_fresh := hs_fresh h; hs_started := hs_started h; hs_out := hs_out h |}
+  | OClose => {| hs_p := hs_p h; hs_closed := true; hs_fresh := hs_fresh h; hs_started := hs_started h; hs_out := hs_out h |}
   | OParse =>
-    (* the first step of a parseMessage generator sets .closed = False *)
-    let closed := if hs_fresh h then false else hs_closed h in
     match hs_p h with
-    | Dead e => {| hs_p := Dead e; hs_closed := closed; hs_fresh := false; hs_out := hs_out h |}
+    | Dead e => {| hs_p := Dead e; hs_closed := hs_closed h; hs_fresh := false; hs_started := true; hs_out := hs_out h |}
     | Live s b =>
+      (* the first step of a parseMessage generator sets .closed = False, and so
+         does the start of the message (0a30e14): a closure seen while idle is not
+         about the message that arrives later *)
+      let closed := if hs_fresh h || (negb (hs_started h) && negb (is_nil b)) then false else hs_closed h in
       if closed then
         let '(p, os, c) := run_c k (S (S (length b))) s b in
-        {| hs_p := p; hs_closed := c; hs_fresh := false; hs_out := hs_out h ++ os |}
+        {| hs_p := p; hs_closed := c; hs_fresh := false; hs_started := started_of p; hs_out := hs_out h ++ os |}
       else
         let (p, os) := run (msg_stage k) (S (length b)) s b in
-        {| hs_p := p; hs_closed := false; hs_fresh := false; hs_out := hs_out h ++ os |}
+        {| hs_p := p; hs_closed := false; hs_fresh := false; hs_started := started_of p; hs_out := hs_out h ++ os |}
     end
   end.
 Definition run_ops (k : kind) (ops : list op) : hstate := fold_left (do_op k) ops hs_init.
